@@ -1,4 +1,4 @@
-HOOK_COMMITS = ["fefc95e"]
+HOOK_COMMITS = ["fefc95e", "25db118", "9a0560e", "6159944"]
 NOTES = ("Every check regenerates coq/gen/*.v from /repo, re-checks the property's Coq closure with full .vo builds, "
          "rebuilds the harness crate from /repo's working tree with --cfg aws_s2n_quic_verif and runs the extracted model "
          "against the implementation. KNOWN_FINDINGS.txt lists recorded findings; it is never written at run time.")
@@ -14,8 +14,15 @@ CLAIMED = {
     },
 }
 
+CLAIMED["C11"] = {
+    "text": "Coq theorems over the model of Path's amplification accounting for every sequence of datagrams received/sent (ledger sent + allowance <= 3 x received + forgiven overshoot, exact while it fits u32; the literal 3x bound proved outside the recorded known class and refuted inside it - finding F2, reported as KNOWN-FINDING), of stateless-reset sizing for every trigger/tag length and every random choice (strictly smaller than the trigger; none exactly when impossible) and of the version-negotiation decision (only Initial of an unsupported version in a datagram >= 1200 bytes, never for VN); tied to the source by generated constants (multiplier 3, 1200, reset sizing constants, supported versions) and differential execution through hook H1",
+    "design_ref": "5.11",
+    "note": "trusted: Coq kernel, translator, extraction, OCaml driver, Rust harness + hook H1 (verif_hooks/{common,amplification,misc}.rs); hypothesis: gen_range_biased returns a value in range; not covered by a component: client Initial padding and whether every transmission site consults the path's constraint (only the Path API and the endpoint-level reply dispatchers are driven); no axioms",
+    "technique": "Coq proof (inductive ledger invariant over reachable path states; case analysis) + model/implementation correspondence + known-finding classifier proved to accept every model run",
+}
+
 NOT_APPLICABLE = {
     "C07": "interoperation with an independent third-party QUIC/TLS binary cannot be stated as a theorem about any model we could write (DESIGN.md 5.7); its provable content is carried by C05/C08/C14/C06",
 }
-for _p in ["C01", "C02", "C03", "C04", "C05", "C06", "C08", "C09", "C10", "C11", "C12", "C13", "C14", "C15", "C16", "C17", "C18", "C20"]:
+for _p in ["C01", "C02", "C03", "C04", "C05", "C06", "C08", "C09", "C10", "C12", "C13", "C14", "C15", "C16", "C17", "C18", "C20"]:
     NOT_APPLICABLE.setdefault(_p, PENDING)
